@@ -577,7 +577,7 @@ func gen(r *Rng, tier string, emit func(string)) {
 				copy(s2[32:64], sig[0:32])
 			}
 			mut("", s2, h2, p2)
-			if r.Chance(40) {
+			if r.Chance(20) || thorough {
 				emit("rawverify " + Hex(p2) + " " + Hex(s2[:64]) + " " + h2)
 			}
 		}
@@ -723,7 +723,9 @@ func gen(r *Rng, tier string, emit func(string)) {
 				emit("pubfromsig " + Hex(sig) + " " + h)
 				if key != nil {
 					emit("verify " + Hex(key) + " " + Hex(sig) + " " + h)
-					emit("rawverify " + Hex(key) + " " + Hex(sig[:64]) + " " + h)
+					if variant == 0 || thorough {
+						emit("rawverify " + Hex(key) + " " + Hex(sig[:64]) + " " + h)
+					}
 				}
 				if i%3 == 0 {
 					emit("verifyrec " + Hex(sig) + " " + h)
@@ -769,6 +771,35 @@ func gen(r *Rng, tier string, emit func(string)) {
 				// the key of the reading that differs in bit 1 must NOT be accepted for this recovery byte
 				if v >= 2 && keys[v^2] != nil {
 					emit("verify " + Hex(keys[v^2]) + " " + Hex(sig) + " " + h)
+				}
+			}
+			// plain ECDSA verification (Signature.Verify: x(u1*G + u2*Q) mod n = r) has no recovery id: the canonical (r, s) is a
+			// VALID signature for the key of each of the four readings - for the readings 2 and 3 the nonce point's abscissa is
+			// r + n >= n, so the reduction mod n (equivalently the retry with r + n) is what makes it verify. Neighbours must fail
+			// (except the negated s, which plain ECDSA accepts too).
+			for v := 0; v < 4; v++ {
+				if keys[v] == nil {
+					continue
+				}
+				sig := eclib.Sig65(rr, ss, v)
+				emit("rawverify " + Hex(keys[v]) + " " + Hex(sig[:64]) + " " + h)
+				if v >= 2 || r.Chance(25) {
+					nb := r.Intn(5)
+					g := append([]byte{}, sig[:64]...)
+					h2 := h
+					switch nb {
+					case 0:
+						copy(g[32:64], b32(new(big.Int).Sub(eclib.N, ss))) // still valid
+					case 1:
+						copy(g[32:64], b32(add(ss, 1)))
+					case 2:
+						copy(g[0:32], b32(add(rr, 1)))
+					case 3:
+						h2 = Hex(b32(add(z, 1)))
+					case 4:
+						copy(g[0:32], b32(new(big.Int).Add(rr, eclib.N))) // r + n: not below n
+					}
+					emit("rawverify " + Hex(keys[v]) + " " + Hex(g) + " " + h2)
 				}
 			}
 			// re-encodings of r: textbook ECDSA requires 0 < r < n, so r + n (a field element below p here, naming the abscissa
